@@ -13,9 +13,12 @@ VERIF = os.path.dirname(os.path.dirname(os.path.abspath(__file__)))
 SPEC = os.path.join(VERIF, "spec")
 WORK = os.path.join(VERIF, "work")
 HARNESS = os.path.join(VERIF, "harness")
-PV = os.path.join(WORK, "target", "release", "pv")
+# Overrides used only by bin/seedtest (checks against a scratch worktree with a seeded change); the registered
+# commands never set them, so they always build and test /repo's working tree.
+PV = os.environ.get("VERIF_PV") or os.path.join(WORK, "target", "release", "pv")
 TLA_JAR = "/opt/veriftools/tla/tla2tools.jar:/opt/veriftools/tla/CommunityModules-deps.jar"
-REPO = "/repo"
+REPO = os.environ.get("VERIF_REPO") or "/repo"
+EVIDENCE_DIR = os.environ.get("VERIF_EVIDENCE_DIR") or os.path.join(VERIF, "evidence")
 
 
 class ToolError(Exception):
@@ -33,6 +36,8 @@ def sh(cmd, **kw):
 def build_harness():
     """cargo build of the harness; peppi is a path dependency on /repo, so this always compiles the
     repository's current working tree (with --cfg peppi_verif)."""
+    if os.environ.get("VERIF_PV"):
+        return
     t = time.time()
     lock = os.path.join(HARNESS, "Cargo.lock")
     if not os.path.exists(lock):
@@ -237,10 +242,10 @@ class Check:
         self.tier = tier
         self.seed = seed
         self.t0 = time.time()
-        self.run_dir = os.path.join(WORK, "run-%s-%d" % (prop, os.getpid()))
+        self.run_dir = os.path.join(os.environ.get("VERIF_RUN_ROOT") or WORK, "run-%s-%d" % (prop, os.getpid()))
         shutil.rmtree(self.run_dir, ignore_errors=True)
         os.makedirs(self.run_dir)
-        self.replay_dir = os.path.join(WORK, "replays", prop)
+        self.replay_dir = os.path.join(os.environ.get("VERIF_RUN_ROOT") or WORK, "replays", prop)
         os.makedirs(self.replay_dir, exist_ok=True)
         self.tlc = []
         self.viols = []
@@ -321,8 +326,8 @@ class Check:
             "wall_s": round(time.time() - self.t0, 1),
             "violations": len(fresh),
         }
-        os.makedirs(os.path.join(VERIF, "evidence"), exist_ok=True)
-        with open(os.path.join(VERIF, "evidence", self.prop + ".json"), "w") as f:
+        os.makedirs(EVIDENCE_DIR, exist_ok=True)
+        with open(os.path.join(EVIDENCE_DIR, self.prop + ".json"), "w") as f:
             json.dump(ev, f, indent=1, sort_keys=True)
             f.write("\n")
         shutil.rmtree(self.run_dir, ignore_errors=True)
